@@ -19,7 +19,7 @@ func init() {
 			"R06-killarg — constant arguments of every switchToParentThread call: kill=false only at the yield site (dominated by a negative host-function result), true at body termination and on error; haserror=true only in threadRun; switchToParentThread restores CurrentThread and clears Parent on every path; Status derives its four answers from Dead / CurrentThread / Parent in that priority. " +
 			"R06-resumeapi — the Go-side Resume removes what the coroutine handed over from the resumer's stack on every return path (SetTop(top) with the top taken before the switch), so a failed or yielding coroutine leaves the resumer's own stack untouched. NOT decided: payload transfer counts/order, register offsets in switchToParentThread, per-thread state isolation.",
 		Trusted: []string{},
-		Rules:   []func(*Ctx){rulePadCountIsCMinusOne, ruleYieldHandsOverExactlyItsValues, ruleXMoveAbsolute, ruleThreadCtx, ruleResumeRefusesBeforeItPushes, ruleParenthesisedReturnCount, ruleYieldRoomCoversPushes, ruleResumeGuard, ruleRelease, ruleKillArg, ruleResumeApi, ruleDeadThreadPush, ruleResumePadField, ruleRaiseOnOwnState, ruleResumeConvention, ruleBaseFramePassedOn, ruleYieldHandOver, ruleResumeFinishDecision, ruleInlineCopies, ruleYieldRoomForOwnConvention, ruleResumeRoomChecked},
+		Rules:   []func(*Ctx){ruleCanHoldAgreesWithResize, rulePadCountIsCMinusOne, ruleYieldHandsOverExactlyItsValues, ruleXMoveAbsolute, ruleThreadCtx, ruleResumeRefusesBeforeItPushes, ruleParenthesisedReturnCount, ruleYieldRoomCoversPushes, ruleResumeGuard, ruleRelease, ruleKillArg, ruleResumeApi, ruleDeadThreadPush, ruleResumePadField, ruleRaiseOnOwnState, ruleResumeConvention, ruleBaseFramePassedOn, ruleYieldHandOver, ruleResumeFinishDecision, ruleInlineCopies, ruleYieldRoomForOwnConvention, ruleResumeRoomChecked},
 	})
 }
 
